@@ -7,6 +7,11 @@ GT = "./internal/mysql/gtids"
 OPT = "./internal/app/optimization"
 
 REGISTRY = {
+    "C10": dict(
+        level="exploration",
+        units=[dict(pkg=APP, test="TestVerifC10", quick=2400, thorough=60000, shards_quick=16, shards_thorough=16),
+               dict(pkg=APP, test="TestVerifC10Grid", mode="enum", quick=0, thorough=0, shards_quick=16, shards_thorough=16)],
+    ),
     "C16": dict(
         level="exploration", death_is_violation=True,
         units=[dict(pkg=APP, test="TestVerifC16Resolve", quick=40000, thorough=2000000, shards_quick=8, shards_thorough=16, flight=True),
